@@ -116,6 +116,7 @@ DispLegal(s, r, m, sub, ctype) ==
     IN IF sub.ok
        THEN /\ sub.lab >= 0
             /\ sub.lab \in QRange(lab)
+            /\ IdxOf(lab, sub.lab) \ r.gone # {}       \* something of the label is left (not deleted earlier in this trial)
             /\ (ctype = "cdisp" => sub.lab \notin r.displaced)
             /\ (ctype = "single" /\ pre # NoLab => sub.lab = pre)
        ELSE TRUE
